@@ -1,6 +1,7 @@
 """C11 - context streams run in their creation context and leave the consumer's intact.
 
-A stream is created with ctx.stream(generator_fn) inside scope `create` (state R1=1, D1=2) and consumed
+A stream is created with ctx.stream(generator_fn) inside scope `create` (state R1=1, D1=2; in a third of the cases itself
+nested in a scope `outer`, so two enclosing scopes wait for the stream) and consumed
   same     inside `create`, same task
   sibling  after `create` was left, inside scope `consume` (state R1=11, R2=12)
   outside  after `create` was left, outside every scope
@@ -60,13 +61,14 @@ LEVEL_TEXT = (
 )
 LEVEL_NOTE = "Trusted: the lexical environments built in hv/props/c11.py, the probe machinery of hv/gen/programs.py, VirtualLoop."
 
+OUTER = {"kind": "ascope", "name": "outer", "supply": [["R2", 5]]}
 CREATE = {"kind": "ascope", "name": "create", "supply": [["R1", 1], ["D1", 2]]}
 STREAM = {"kind": "ascope", "name": "numbers", "supply": []}
 INNER_STREAM = {"kind": "ascope", "name": "inner_numbers", "supply": []}
 GNEST = {"kind": "sscope", "name": "gnest", "supply": [["R1", 21]]}
 CONSUME = {"kind": "ascope", "name": "consume", "supply": [["R1", 11], ["R2", 12]]}
 OTHER = {"kind": "ascope", "name": "other", "supply": [["R1", 31]]}
-NAMES = ["create", "numbers", "inner_numbers", "gnest", "consume", "other"]
+NAMES = ["outer", "create", "numbers", "inner_numbers", "gnest", "consume", "other"]
 
 
 class GenErr(Exception):
@@ -187,14 +189,20 @@ def run_case(R: Recorder, case: dict[str, Any], verbose: bool = False) -> None:
     def blk(spec: dict[str, Any], body: list[dict[str, Any]], **kw: Any) -> dict[str, Any]:
         return {"op": "block", **spec, "body": body, "catch": True, **kw}
 
+    deep = bool(case.get("deep"))
+
+    def creation(body: list[dict[str, Any]]) -> dict[str, Any]:
+        inner_blk = blk(CREATE, body, completion="sync")
+        return blk(OUTER, [inner_blk], completion="sync") if deep else inner_blk
+
     async def program(W: World) -> None:
         if place == "same":
-            await run_block(W, blk(CREATE, [{"op": "call", "fn": create_stream}, {"op": "call", "fn": consume}], completion="sync"), None)
+            await run_block(W, creation([{"op": "call", "fn": create_stream}, {"op": "call", "fn": consume}]), None)
         elif place == "sibling":
-            await run_block(W, blk(CREATE, [{"op": "call", "fn": create_stream}], completion="sync"), None)
+            await run_block(W, creation([{"op": "call", "fn": create_stream}]), None)
             await run_block(W, blk(CONSUME, [{"op": "call", "fn": consume}]), None)
         elif place == "outside":
-            await run_block(W, blk(CREATE, [{"op": "call", "fn": create_stream}], completion="sync"), None)
+            await run_block(W, creation([{"op": "call", "fn": create_stream}]), None)
             await consume(W)
         else:
             async def in_task(W2: World) -> None:
@@ -204,7 +212,7 @@ def run_case(R: Recorder, case: dict[str, Any], verbose: bool = False) -> None:
                 t = ctx.spawn(consumer_task) if via == "ctx" else asyncio.get_running_loop().create_task(consumer_task())
                 await asyncio.gather(t, return_exceptions=True)
 
-            await run_block(W, blk(CREATE, [{"op": "call", "fn": create_stream}, {"op": "call", "fn": in_task}], completion="sync"), None)
+            await run_block(W, creation([{"op": "call", "fn": create_stream}, {"op": "call", "fn": in_task}]), None)
         take_probe(W, ("c", "end"))
         log["cons_probes"].append((("c", "end"), "program-end"))
 
@@ -238,7 +246,7 @@ def run_case(R: Recorder, case: dict[str, Any], verbose: bool = False) -> None:
     W: World = loop.W
 
     # ---- reference environments --------------------------------------------------------------------------
-    env_create = Env().push(CREATE)
+    env_create = (Env().push(OUTER) if deep else Env()).push(CREATE)
     env_cons = {"same": env_create, "sibling": Env().push(CONSUME), "outside": Env(), "task": env_create.push(OTHER)}[place]
     differs = place in ("sibling", "outside", "task")
     R.case(case, nontrivial=differs)
@@ -313,12 +321,13 @@ def run_case(R: Recorder, case: dict[str, Any], verbose: bool = False) -> None:
                   detail=f"consumer probe {pid} ({ck}): state ok={st} scope-token ok={tok} ({scope_token(obs, NAMES)!r}, expected {e['scope']!r}) task-group ok={tgv} {tgdetail}", case=case)
     # ---- completion --------------------------------------------------------------------------------------
     ev = W.events
-    i_comp = next((i for i, x in enumerate(ev) if x[0] == "completion" and x[1] == "create"), None)
     i_fin = next((i for i, x in enumerate(ev) if x[0] == "stream-finished" and x[1] in ("end", "raise", "closed", "closed-by-harness")), None)
-    if i_fin is not None:
-        ok = i_comp is not None and i_comp > i_fin
-        kind = "completion-never-fired" if i_comp is None else "completion-before-stream-end"
-        R.monitor("completion", ok, where={**w0, "kind": kind}, detail=f"'create' completion at event {i_comp}, stream finished at event {i_fin}; events={[x for x in ev if x[0] in ('completion', 'stream-finished', 'exit', 'stream-created')]}", case=case)
+    for scope_name in (["create", "outer"] if deep else ["create"]):
+        i_comp = next((i for i, x in enumerate(ev) if x[0] == "completion" and x[1] == scope_name), None)
+        if i_fin is not None:
+            ok = i_comp is not None and i_comp > i_fin
+            kind = "completion-never-fired" if i_comp is None else "completion-before-stream-end"
+            R.monitor("completion", ok, where={**w0, "kind": kind, "scope": scope_name}, detail=f"'{scope_name}' completion at event {i_comp}, stream finished at event {i_fin}; events={[x for x in ev if x[0] in ('completion', 'stream-finished', 'exit', 'stream-created')]}", case=case)
     R.monitor("loop-clean", not loop.errors, where={**w0, "kind": "loop-exception-handler-called"}, detail=f"{loop.errors}", case=case)
     if R.want_sample(place):
         R.sample({"case": case, "produced": produced, "received": received, "terminal": repr(terminal), "generator_probes": len(log["gen_probes"]), "consumer_probes": [c for _, c in log["cons_probes"]]}, kind=place)
@@ -331,12 +340,12 @@ def cases(tier: str, rng: random.Random):  # noqa: ANN201
                 modes = ["full"] + [f"break@{k}" for k in range(1, n + 1)] + [f"aclose@{k}" for k in range(1, n + 1)]
                 for mode in modes:
                     for nested_at in ([], [0], [n - 1] if n > 1 else []):
-                        yield {"items": n, "end": end, "nested_at": list(nested_at), "records": (n + len(mode)) % 2 == 0, "inner": False, "place": place, "mode": mode, "via": "plain" if n % 2 else "ctx", "falsy": (n + len(nested_at)) % 2 == 1}
+                        yield {"items": n, "end": end, "nested_at": list(nested_at), "records": (n + len(mode)) % 2 == 0, "inner": False, "place": place, "mode": mode, "via": "plain" if n % 2 else "ctx", "falsy": (n + len(nested_at)) % 2 == 1, "deep": (n + len(mode) + len(nested_at)) % 3 == 0}
     for _ in range({"quick": 300, "thorough": 20000}[tier]):
         n = rng.randint(1, 5)
         total = n + 2
         yield {"items": n, "end": rng.choice(["stop", "raise"]), "nested_at": sorted(rng.sample(range(n), rng.randint(0, min(2, n)))), "records": rng.random() < 0.5, "inner": rng.random() < 0.4,
-               "falsy": rng.random() < 0.4, "place": rng.choice(["same", "sibling", "outside", "task"]), "mode": rng.choice(["full", "full", f"break@{rng.randint(1, total)}", f"aclose@{rng.randint(1, total)}"]), "via": rng.choice(["plain", "ctx"])}
+               "falsy": rng.random() < 0.4, "deep": rng.random() < 0.4, "place": rng.choice(["same", "sibling", "outside", "task"]), "mode": rng.choice(["full", "full", f"break@{rng.randint(1, total)}", f"aclose@{rng.randint(1, total)}"]), "via": rng.choice(["plain", "ctx"])}
 
 
 def run(R: Recorder, tier: str, seed: int, shard: int, nshards: int) -> None:
